@@ -10,7 +10,7 @@ RULE = (
     "history: generated operation histories (see C01) with a spy on every executed trade: the parent's cash moves by exactly q*p*mult + half-spread (or custom-price difference) "
     "+ commission, the commission function is evaluated exactly once for the executed quantity at (q, p*mult), the recorded fees/flows/outlays/bid-offer rows of the date equal the "
     "reference model's accumulators after every operation, and at the end the per-node per-date ledger identity is recomputed from the recorded series. "
-    "backtest: the same ledger identity on grammar-generated (flat and nested) backtests. non-trivial = two or more trades in one security on one date, or a nested node trading. "
+    "backtest: the same ledger identity on grammar-generated (flat and nested) backtests. bankrupt_backtest: the same identity on leveraged / short books that go bankrupt (the liquidation is trading like any other: booked on its own date, with its commissions, capital handed back by liquidated sub-strategies recorded as their flows). non-trivial = two or more trades in one security on one date, or a nested node trading. "
     "distinct = distinct spec hashes."
 )
 ASSUMPTIONS = ["CapitalFlow is only generated on the root (so capital passed to a sub-strategy equals its recorded flows)", "tolerance 1e-9 relative to capital + 1e-7"]
@@ -128,10 +128,34 @@ def case_backtest(ctx, spec):
     return {"nontrivial": c10.n_trades(bt, b) >= 2, "labels": labs}
 
 
-SUBS = {"history": case_history_full, "backtest": case_backtest}
-STRATS = {"history": machine.history_spec, "backtest": gen.backtest_spec}
+def bankrupt_spec():
+    # leveraged / short books on jumpy prices (C16's generator): the liquidation of a bankrupt root - its trades, their commissions and the
+    # capital handed back by liquidated sub-strategies - is booked on the date it happens like any other trading
+    from . import c16
+
+    return c16.run_spec(kinds=("flat", "flat", "nested")).map(lambda sp: {k: v for k, v in sp.items() if k not in ("kind", "carry", "two_step", "ruinous_fee", "hedge_secs", "exact_zero")})
+
+
+def case_bankrupt_backtest(ctx, spec):
+    bt = ctx.bt
+    try:
+        b = c10.run_backtest(bt, spec)
+    except Exception as e:
+        raise Discard("run raised (C10's business): %s" % type(e).__name__)
+    s = b.strategy
+    ledger_from_records(bt, s, abs(spec.get("initial_capital", 1e6)), tag="backtest that %s" % ("went bankrupt" if s.bankrupt else "stayed solvent"))
+    labs = gen.spec_labels(spec) + (["bankrupt"] if s.bankrupt else [])
+    costly = (np.asarray(s.fees, dtype=float) != 0).any() or bool(spec.get("bidoffer"))
+    if s.bankrupt and costly:
+        labs.append("bankrupt_with_costs")
+    return {"nontrivial": bool(s.bankrupt and c10.n_trades(bt, b) >= 2), "labels": labs}
+
+
+SUBS = {"history": case_history_full, "backtest": case_backtest, "bankrupt_backtest": case_bankrupt_backtest}
+STRATS = {"history": machine.history_spec, "backtest": gen.backtest_spec, "bankrupt_backtest": bankrupt_spec}
 
 
 def shard(ctx):
     run_sub(ctx, "history", machine.history_spec(min_ops=5, max_ops=30), lambda s: case_history_full(ctx, s), ctx.n(1600, 30000))
     run_sub(ctx, "backtest", gen.backtest_spec(), lambda s: case_backtest(ctx, s), ctx.n(800, 12000))
+    run_sub(ctx, "bankrupt_backtest", bankrupt_spec(), lambda s: case_bankrupt_backtest(ctx, s), ctx.n(800, 12000))
